@@ -24,6 +24,40 @@ def module_of_cache_file(rel: str) -> tuple[str, str] | None:
 	return None
 
 
+def stale_transitive_files(pool: dict[str, Any], state: dict[str, int], written: dict[str, dict[str, Any]], cache_files: list[str]) -> list[str]:
+	"""Signature of known finding C05/symbol-cache-transitive-dependency:
+	symbols files whose module and direct imports are unchanged since the file was written while a module reachable
+	through >= 2 import hops (and not directly imported) changed."""
+	out = []
+	for rel in cache_files:
+		mk = module_of_cache_file(rel)
+		if not mk or mk[1] != 'symbols' or mk[0] not in state:
+			continue
+		m = mk[0]
+		w = written.get(rel)
+		if not w:
+			continue
+		changed = {x for x in state if w['state'].get(x) != state[x]}
+		then_state = {**state, **{k: v for k, v in w['state'].items() if k in state}}
+		direct = set(pools.direct_imports(pool, state, m)) | set(pools.direct_imports(pool, then_state, m))
+		closure = pools.import_closure(pool, state, m) | pools.import_closure(pool, then_state, m)
+		if m in changed or (changed & direct):
+			continue
+		if changed & (closure - direct - {m}):
+			out.append(rel)
+	return sorted(out)
+
+
+def account_cache_writes(written: dict[str, dict[str, Any]], trace: list[list[Any]], state: dict[str, int], existing: set[str], run_no: int = 0) -> None:
+	snapshot_state = dict(state)
+	for ev in trace:
+		if ev[0] == 'open-w' and is_cache(ev[1]):
+			written[ev[1]] = {'state': snapshot_state, 'run': run_no}
+	for rel in list(written):
+		if rel not in existing:
+			del written[rel]
+
+
 class HistoryRunner:
 	"""Subclass and override judge_run()."""
 
@@ -120,28 +154,7 @@ class HistoryRunner:
 		return ','.join(parts)
 
 	def stale_transitive_symbol_files(self) -> list[str]:
-		"""Signature of known finding C05/symbol-cache-transitive-dependency:
-		symbols files whose module and direct imports are unchanged since the file was written while a module reachable
-		through >= 2 import hops (and not directly imported) changed."""
-		out = []
-		state = self.proj.state
-		for rel in self.proj.cache_files():
-			mk = module_of_cache_file(rel)
-			if not mk or mk[1] != 'symbols' or mk[0] not in state:
-				continue
-			m = mk[0]
-			w = self.written.get(rel)
-			if not w:
-				continue
-			changed = {x for x in state if w['state'].get(x) != state[x]}
-			then_state = {**state, **{k: v for k, v in w['state'].items() if k in state}}
-			direct = set(pools.direct_imports(self.pool, state, m)) | set(pools.direct_imports(self.pool, then_state, m))
-			closure = pools.import_closure(self.pool, state, m) | pools.import_closure(self.pool, then_state, m)
-			if m in changed or (changed & direct):
-				continue
-			if changed & (closure - direct - {m}):
-				out.append(rel)
-		return sorted(out)
+		return stale_transitive_files(self.pool, self.proj.state, self.written, self.proj.cache_files())
 
 	# -- op execution
 
